@@ -47,8 +47,24 @@ def container(t):
     return t
 
 
+SUM_HOOK = [None]      # optional: callee path -> (i, j) when `ok(callee(args))` is the non-overflowing sum args[i-1] + args[j-1]
+
+
+def set_sum_hook(h):
+    SUM_HOOK[0] = h
+    _NORM_MEMO.clear()
+
+
 def _norm(t):
     k = t[0]
+    if k == 'ok' and isinstance(t[1], tuple) and t[1]:
+        p = t[1]
+        while p[0] in ('cast', 'ref', 'deref'):
+            p = p[2] if p[0] == 'cast' else p[1]
+        if p[0] == 'call' and len(p[2]) >= 2:
+            ij = (1, 2) if (canon(p[1]).endswith("num::checked_add") and len(p[2]) == 2) else (SUM_HOOK[0](p[1]) if SUM_HOOK[0] else None)
+            if ij:
+                return norm(('bin', 'Add', p[2][ij[0] - 1], p[2][ij[1] - 1]))
     if k in ('ref', 'deref'):
         return norm(t[1])
     if k == 'cast':
